@@ -60,6 +60,8 @@ func c18ErrClass(err error) int {
 		return 3
 	case err.Error() == "Seek: invalid offset": // errOffset is unexported
 		return 4
+	case err == io.EOF:
+		return 5
 	}
 	return 9
 }
@@ -124,6 +126,8 @@ type c18Hist struct {
 	ev     map[string]bool
 	ucalls int
 	seq    byte
+	store  func(abs, cnt int64) // optional: told about every (absolute offset, count accepted) the property predicts
+	sh     *c18Hist             // optional: the history that owns the response script (several writers over one mock)
 }
 
 func c18New(off, n int64) *c18Hist {
@@ -150,9 +154,13 @@ func (h *c18Hist) Resp(k int64, e int) {
 func (h *c18Hist) under(m int64) int64 {
 	h.ucalls++
 	cnt := m
-	if h.ri < len(h.resp) {
-		r := h.resp[h.ri]
-		h.ri++
+	o := h
+	if h.sh != nil {
+		o = h.sh
+	}
+	if o.ri < len(o.resp) {
+		r := o.resp[o.ri]
+		o.ri++
 		if r[0] < m {
 			cnt = r[0]
 			h.ev["F"] = true // short count from the underlying writer
@@ -183,7 +191,11 @@ func (h *c18Hist) Write(l int) {
 	if l == 0 {
 		h.ev["Z"] = true
 	}
-	h.pos += h.under(m)
+	cnt := h.under(m)
+	if h.store != nil {
+		h.store(h.off+h.pos, cnt)
+	}
+	h.pos += cnt
 }
 
 func (h *c18Hist) WriteAt(l int, o int64) {
@@ -199,7 +211,10 @@ func (h *c18Hist) WriteAt(l int, o int64) {
 	} else if h.n-o == m {
 		h.ev["M"] = true
 	}
-	h.under(m)
+	cnt := h.under(m)
+	if h.store != nil {
+		h.store(h.off+o, cnt)
+	}
 }
 
 func (h *c18Hist) Seek(d int64, wh int) {
@@ -502,4 +517,72 @@ func genC18(g *Gen) {
 		}
 		h.emit(g, at, fmt.Sprintf("%s-f%d", bucket, fmode))
 	}
+
+	// (3) large buffers: lengths around powers of two up to 64 KiB (a fixed-size
+	// scratch buffer or a length cut anywhere in the implementation shows here),
+	// sections ending one before / exactly at / one after the buffer end, or far away
+	bigSizes := []int{49, 63, 64, 65, 127, 128, 129, 255, 256, 257, 511, 512, 513, 1023, 1024, 1025, 4095, 4096, 4097}
+	nb := g.N(400, 6000)
+	for k := 0; k < nb; k++ {
+		l := bigSizes[g.R.Intn(len(bigSizes))]
+		if g.R.Intn(40) == 0 {
+			l = g.R.Pick(65535, 65536, 65537)
+		} else if g.R.Intn(4) == 0 {
+			l = g.R.Range(49, 5000)
+		}
+		off := int64(g.R.Pick(0, 1, 7, 4096))
+		if g.R.Intn(5) == 0 {
+			off = maxI - int64(2*l) - int64(g.R.Intn(3*l+2))
+		}
+		at := g.R.Intn(6) == 0
+		var n int64
+		switch g.R.Intn(6) {
+		case 0:
+			n = int64(l - 1)
+		case 1:
+			n = int64(l)
+		case 2:
+			n = int64(l + 1)
+		case 3:
+			n = int64(2*l + g.R.Range(-1, 1))
+		case 4:
+			n = int64(3*l + g.R.Intn(100))
+		default:
+			n = maxI - off
+		}
+		if at || n > maxI-off {
+			n = maxI - off
+		}
+		h := c18New(off, n)
+		// the underlying writer: everything / short by one / half / short with its own error
+		switch g.R.Intn(5) {
+		case 0:
+			h.Resp(int64(l-1), 0)
+		case 1:
+			h.Resp(int64(l/2), g.R.Pick(0, 2))
+		case 2:
+			h.Resp(int64(l), 2)
+			h.Resp(int64(l-1), 0)
+		}
+		for c, nc := 0, g.R.Range(2, 5); c < nc; c++ {
+			ll := l + g.R.Pick(-1, 0, 0, 0, 1)
+			switch g.R.Intn(6) {
+			case 0, 1, 2:
+				h.Write(ll)
+			case 3, 4:
+				o := int64(g.R.Pick(0, 1, 5))
+				if g.R.Bool() && h.n >= int64(ll) {
+					o = h.n - int64(ll) + int64(g.R.Range(-1, 1)) // ends one before / at / one after the limit
+				}
+				h.WriteAt(ll, o)
+			default:
+				h.Seek(int64(g.R.Pick(0, 1, l-1, l)), 0)
+			}
+		}
+		h.Write(l)
+		h.emit(g, at, "big-buffers")
+	}
+
+	// (4) widening: AtToReader, and section writer + AtToReader over one in-memory file
+	genC18Wide(g)
 }
